@@ -27,8 +27,9 @@ regex_comment = re.compile(r'^#.*$')
 # Identifies the global attributes Format
 regex_global = re.compile(r'^global\s+(?P<parameters>.*)?')
 
-# Coordinate Format : '[x, y]'
-regex_coordinate = re.compile(r'\[([\w.+-:]*?)\s*[,]\s*([\w.+-:]*?)\]')
+# Coordinate Format : '[x, y]' (lengths may use " and ' as arcsec and
+# arcmin units)
+regex_coordinate = re.compile(r'\[([\w.+-:\'"]*?)\s*[,]\s*([\w.+-:\'"]*?)\]')
 
 # Single length format, e.g., helps extract the radius of a circle
 regex_length = re.compile(r'(?:\[[^=\]]*\])+[,]\s*([^\[]*)\]')
